@@ -655,10 +655,12 @@ class ExprMixin:
     # ------------------------------------------------------------------ containers
     def ev_List(self, node, st, ctx):
         items = [self.ev(e, st, ctx) for e in node.elts]
-        if not items:
-            ety = self.hint_elem or VAL
+        if self.hint_elem is not None:
+            ety = self.hint_elem
+        elif not items:
+            ety = VAL
         else:
-            ety = items[0].ty if all(i.ty == items[0].ty and i.none is None for i in items) else VAL
+            ety = items[0].ty if all(i.ty == items[0].ty and (i.none is None or i.ty.is_ref) for i in items) else VAL
             if ety.kind in ("tuple", "none", "fun"):
                 ety = VAL
         return self.new_list(st, ety, items)
